@@ -31,6 +31,14 @@ Resolve(ps, s, a) == [k \in 0..(N - 1) |->
                           THEN a[k] ELSE s[k]]
 BadPanels(ps, s, a) == {ps[k].n : k \in {i \in 1..Len(ps) : ~(PanelOK(ps[i], s[ps[i].n]) \/ PanelOK(ps[i], a[ps[i].n]))}}
 
+\* power loss: a hard state written by an update that only moved the commit index may have been lost;
+\* the recovered one is then an earlier acknowledged hard state of the same term and vote (LogStore!soft)
+PowerLoss(ev) == ev.op = "Recovered" \/ (ev.op = "Reopen" /\ ev.pl)
+SoftenOK(s, ps) == [k \in 0..(N - 1) |->
+                    LET I == {i \in 1..Len(ps) : ps[i].n = k /\ ps[i].rserr = "" /\ ps[i].st \in s[k].soft} IN
+                    IF I # {} THEN [s[k] EXCEPT !.st = ps[CHOOSE i \in I : TRUE].st] ELSE s[k]]
+Hard(s) == [k \in 0..(N - 1) |-> [s[k] EXCEPT !.soft = {}]]
+
 Init == st = Fresh /\ alt = Fresh /\ l = 1 /\ bad = {}
 
 Next ==
@@ -51,8 +59,12 @@ Next ==
             \* interrupted by a crash: per replica before or after, decided at "Recovered"
             st' = st /\ alt' = ApplyUps(st, ev.ups, 1) /\ bad' = bad
        [] ev.op \in {"Recovered", "Reopen", "Query"} ->
-            /\ bad' = IF PanelsOK(ev.panels, st, alt) THEN bad ELSE Flag(ev, BadPanels(ev.panels, st, alt))
-            /\ LET r == Resolve(ev.panels, st, alt) IN st' = r /\ alt' = r
+            LET s1 == IF PowerLoss(ev) THEN SoftenOK(st, ev.panels) ELSE st
+                a1 == IF PowerLoss(ev) THEN SoftenOK(alt, ev.panels) ELSE alt
+                r == Resolve(ev.panels, s1, a1)
+            IN /\ bad' = IF PanelsOK(ev.panels, s1, a1) THEN bad ELSE Flag(ev, BadPanels(ev.panels, s1, a1))
+               /\ st' = (IF PowerLoss(ev) THEN Hard(r) ELSE r)
+               /\ alt' = (IF PowerLoss(ev) THEN Hard(r) ELSE r)
        [] ev.op = "SaveSnapshot" ->
             LET post == [st EXCEPT ![ev.n] = SaveSnapshotRec(@, ev.idx)] IN
             /\ st' = post /\ alt' = post
